@@ -317,11 +317,13 @@ def probe_first_reads(ctx, pool, rng, history):
             outside = [v for v in vs if not any(v is m for m in before)]
             if outside and (not inside or rng.random() < 0.6):
                 v = rng.choice(outside)
-                v.add_to_universe(u)            # vertex-side join
+                if oracles.outcome(v.add_to_universe, u)[0] != "ok":            # vertex-side join
+                    continue
                 expect = before + [v]
             elif inside:
                 v = rng.choice(inside)
-                v.remove_from_universe(u)       # vertex-side leave
+                if oracles.outcome(v.remove_from_universe, u)[0] != "ok":       # vertex-side leave
+                    continue  # (a graph an earlier probe has already shown to be corrupted)
                 expect = [m for m in before if m is not v]
             else:
                 continue
